@@ -66,6 +66,59 @@ def send_cancel(name, tx, rx, k, transport="tcp", n=40, size=100000, timeo=None)
             "tasks": [{"name": "rx", "ops": rops}, {"name": "tx", "ops": tops}]}
 
 
+def send_frames_cancel(name, tx, rx, k, transport="tcp", n=16, size=100000):
+    """messages sent frame by frame - send(MORE), send(MORE), send(last) - against a receiver that starts
+    late; the call that carries the last frame is dropped at its k-th Pending; then whole messages sent
+    the same way. Nothing of a dropped message may turn up inside a later one."""
+    ep = S.endpoint(transport, name)
+    txo = [S.i32(S.SNDHWM, 2)] + ([S.i32(SNDBUF, 65536)] if transport == "tcp" else [])
+    rxo = [S.i32(S.RCVHWM, 2)] + ([S.i32(RCVBUF, 65536)] if transport == "tcp" else [])
+    tops = [{"op": "barrier", "name": "go", "parties": 2}, {"op": "connect", "sock": "tx", "ep": "$ep"}, {"op": "sleep", "ms": 300}]
+    for i in range(1, n + 6):
+        late = i > n
+        if late and i == n + 1:
+            tops.append({"op": "mark", "name": "cancel_phase_done"})
+        tops.append({"op": "send", "sock": "tx", "mid": "a:%d.1" % i, "size": 10, "more": True, "timeout_ms": 8000})
+        tops.append({"op": "send", "sock": "tx", "mid": "a:%d.2" % i, "size": 12, "more": True, "timeout_ms": 8000})
+        last = {"op": "send", "sock": "tx", "mid": "a:%d.3" % i, "size": 500 if late else size, "timeout_ms": 8000}
+        if not late and i % 4 != 0:            # every fourth message is sent to the end
+            last["cancel_after_polls"] = k
+        tops.append(last)
+    rops = [{"op": "bind", "sock": "rx", "ep": ep, "save": "ep"}, {"op": "barrier", "name": "go", "parties": 2}, {"op": "sleep", "ms": 1500},
+            {"op": "recv_n", "sock": "rx", "n": n + 6, "timeout_ms": 2000, "multipart": True}]
+    return {"name": name, "deadline_ms": 90000, "meta": {"kind": "sendframes", "tx": tx, "rx": rx, "k": k, "fsm": "FREE", "n": n},
+            "sockets": [{"name": "tx", "type": tx, "opts": txo}, {"name": "rx", "type": rx, "opts": rxo}],
+            "tasks": [{"name": "rx", "ops": rops}, {"name": "tx", "ops": tops}]}
+
+
+def judge_send_frames(ctx, sc, meta, r, rp):
+    got = [x for x in S.rets(r, "recv_mp", sock="rx") if x.get("res") == "ok"]
+    whole = []
+    for x in got:
+        ids = [i for i in x.get("ids", [])]
+        base = set(i.rsplit(".", 1)[0] for i in ids)
+        if len(base) != 1 or [i.rsplit(".", 1)[1] for i in ids] != ["1", "2", "3"] or not x.get("intact", True):
+            ctx.violation("C09:partial-message:send:%s" % meta["tx"].lower(),
+                          "%s: messages were sent frame by frame as [a:i.1, a:i.2, a:i.3] and the call carrying the last frame was dropped at its Pending no. %s for some of them; the receiver was handed %s - frames of a dropped message inside another one" % (
+                              sc["name"], meta["k"], ids), rp)
+            return
+        whole.append(int(list(base)[0].split(":")[1]))
+    if whole != sorted(set(whole)):
+        ctx.violation("C09:duplicate-or-reordered:send:%s" % meta["tx"].lower(), "%s: whole messages arrived as %s" % (sc["name"], whole), rp)
+    n = meta["n"]
+    # messages whose last send() returned ok were accepted: they must arrive; the five after the cancel phase too
+    oks = set()
+    for x in r["records"]:
+        if x.get("ev") == "ret" and x.get("op") == "send" and x.get("sock") == "tx" and x.get("mid", "").endswith(".3") and x.get("res") == "ok":
+            oks.add(int(x["mid"].split(":")[1].split(".")[0]))
+    missing = sorted(oks - set(whole))
+    if missing:
+        ctx.violation("C09:accepted-message-lost:send:%s" % meta["tx"].lower(), "%s: messages %s were accepted (last frame's send() returned ok) and never arrived; arrived: %s" % (sc["name"], missing, whole), rp)
+    late_bad = [x for x in r["records"] if x.get("ev") == "ret" and x.get("op") == "send" and x.get("sock") == "tx" and int(x.get("mid", "a:0.0").split(":")[1].split(".")[0]) > n and x.get("res") != "ok"]
+    if late_bad:
+        ctx.violation("C09:socket-unusable-after-cancel:send:%s" % meta["tx"].lower(), "%s: after the dropped calls a normal send(%s) failed with %s" % (sc["name"], late_bad[0].get("mid"), late_bad[0].get("res")), rp)
+
+
 def recv_cancel(name, tx, rx, k, transport="tcp", senders=3, n=40, mp=False, timeo=None, frames=1):
     """several senders stream paced messages; the receiver's calls are dropped at their k-th Pending"""
     ep = S.endpoint(transport, name)
@@ -183,6 +236,9 @@ def build(thorough):
         for k in ks:
             for tr in (["tcp", "ipc", "inproc"] if thorough else (["tcp", "inproc"] if tx == "PUSH" else ["tcp"])):
                 scs.append(send_cancel("send-%s-%s-k%d" % (tx.lower(), tr, k), tx, rx, k, tr, n=40 if thorough else 24))
+    for k in ks:
+        for tr in (["tcp", "ipc", "inproc"] if thorough else ["tcp"]):
+            scs.append(send_frames_cancel("sendframes-push-%s-k%d" % (tr, k), "PUSH", "PULL", k, tr))
     for (tx, rx) in [("PUSH", "PULL"), ("DEALER", "ROUTER")]:
         scs.append(send_cancel("send-%s-tcp-sndtimeo" % tx.lower(), tx, rx, 0, "tcp", n=24, timeo=30))
     for k in ks:
@@ -293,6 +349,9 @@ def run(ctx):
         per_k[meta.get("k")] += ncanc
         senders = [s["name"] for s in sc["sockets"] if s["name"].startswith("tx") or s["name"] in ("req",)]
         receivers = [s["name"] for s in sc["sockets"] if s["name"] in ("rx", "slow", "fast", "rep")]
+        if meta["kind"] == "sendframes":
+            judge_send_frames(ctx, sc, meta, r, rp)
+            continue
         if meta["kind"] in ("send", "recv", "router"):
             if meta.get("frames", 1) > 1 and not meta.get("mp"):
                 for b in regroup_frames(r, "rx"):
